@@ -31,37 +31,37 @@ theorem wf_getitemI_aux (a r : Atoms) (idx : List Int) (hwf : WF a) (h : a.getit
   unfold Atoms.getitemI at h
   split at h
   · cases h
-  · split at h
-    · cases h
-    · cases h
-      obtain ⟨ha, hl, hm, _, _⟩ := hwf
-      refine ⟨?_, hl, hm, Or.inl rfl, termsWF_empty _, termsWF_empty _, termsWF_empty _, termsWF_empty _⟩
-      intro row hr
-      obtain ⟨row0, h0, rfl⟩ := getitemI_rows a idx row hr
-      exact ⟨(ha row0 h0).1, by simp [Atoms.empty]⟩
+  · cases h
+    obtain ⟨ha, hl, hm, _, _⟩ := hwf
+    refine ⟨?_, hl, hm, Or.inl rfl, termsWF_empty _, termsWF_empty _, termsWF_empty _, termsWF_empty _⟩
+    intro row hr
+    obtain ⟨row0, h0, rfl⟩ := getitemI_rows a idx row hr
+    exact ⟨(ha row0 h0).1, by simp [Atoms.empty]⟩
 
-/-- on non-negative integers `getitemI` is the modelled `getitem` -/
-theorem getitemI_ofNat (a : Atoms) (idx : List Nat) : a.getitemI (idx.map Int.ofNat) = a.getitem idx := by
+theorem hist_any_none_ofNat (n : Nat) (idx : List Nat) :
+    (idx.map Int.ofNat).any (fun i => (normIdx n i).isNone) = idx.any (fun i => decide (i ≥ n)) := by
+  rw [List.any_map]
+  induction idx with
+  | nil => rfl
+  | cons i rest ih =>
+    simp only [List.any_cons, ih, Function.comp, normIdx_ofNat]
+    by_cases h : i < n
+    · have : ¬ i ≥ n := by omega
+      simp [h, this]
+    · have : i ≥ n := by omega
+      simp [h, this]
+
+/-- on a NON-EMPTY list of non-negative integers `getitemI` is the modelled `getitem` (which leaves the empty
+    selection outside its domain) -/
+theorem getitemI_ofNat (a : Atoms) (idx : List Nat) (hne : idx ≠ []) :
+    a.getitemI (idx.map Int.ofNat) = a.getitem idx := by
   unfold Atoms.getitemI Atoms.getitem
-  have hany : (idx.map Int.ofNat).any (fun i => (normIdx a.atoms.length i).isNone)
-      = idx.any (fun i => decide (i ≥ a.atoms.length)) := by
-    rw [List.any_map]
-    induction idx with
-    | nil => rfl
-    | cons i rest ih =>
-      simp only [List.any_cons, ih, Function.comp, normIdx_ofNat]
-      by_cases h : i < a.atoms.length
-      · have : ¬ i ≥ a.atoms.length := by omega
-        simp [h, this]
-      · have : i ≥ a.atoms.length := by omega
-        simp [h, this]
-  have hemp : (idx.map Int.ofNat).isEmpty = idx.isEmpty := by cases idx <;> rfl
-  rw [hany, hemp]
-  by_cases h1 : idx.isEmpty = true
-  · simp [h1]
+  have hany := hist_any_none_ofNat a.atoms.length idx
+  have h1 : ¬ idx.isEmpty = true := by simpa using hne
+  rw [hany]
   · by_cases h2 : idx.any (fun i => decide (i ≥ a.atoms.length)) = true
     · simp [h1, h2]
-    · simp only [h1, h2]
+    · simp only [h1, h2, Bool.false_eq_true, if_false]
       have hall : ∀ i ∈ idx, i < a.atoms.length := by
         intro i hi
         have : ¬ (i ≥ a.atoms.length) := fun hge => h2 (List.any_eq_true.mpr ⟨i, hi, by simpa using hge⟩)
@@ -379,6 +379,25 @@ def baseGuardW (s : State) : Op → Prop
 instance (s : State) (op : Op) : Decidable (baseGuardW s op) := by
   cases op <;> unfold baseGuardW <;> infer_instance
 
+/-- the guard of an extend in its public spelling: on the NORMALISED map and the padded offsets, the guard of
+    `extend` (`ExtendGuard`), plus a diagonal map when the object is extended with itself; true when a slot is empty or
+    the map is rejected (`stepW` fails then) -/
+def apiGuard (x y : Option (Option Atoms)) (self : Prop) [Decidable self] (off : Option (List Nat))
+    (map : List (Int × Int)) : Prop :=
+  match x, y with
+  | some (some a), some (some b) =>
+    match normMap b.atoms.length a.atoms.length map with
+    | .ok m => ExtendGuard a b (off.map padOffsets) ∧ (self → DiagMap m)
+    | .error _ => True
+  | _, _ => True
+
+instance (x y : Option (Option Atoms)) (self : Prop) [Decidable self] (off : Option (List Nat))
+    (map : List (Int × Int)) : Decidable (apiGuard x y self off map) := by
+  unfold apiGuard
+  split
+  · split <;> infer_instance
+  · infer_instance
+
 /-- subsets with arbitrary integers need no guard; a self-extend needs a diagonal identity map (and, with explicit
     offsets, `OffsetsOk a a o`; with default offsets `Compat a a` always holds) -/
 def GuardedOpW (s : State) : OpW → Prop
@@ -386,6 +405,7 @@ def GuardedOpW (s : State) : OpW → Prop
   | .deleteI _ _ => True
   | .getitemI _ _ _ => True
   | .extendSelf slot off map => DiagMap map ∧ slotGuard s[slot]? s[slot]? off
+  | .extendA dst src off map => apiGuard s[dst]? s[src]? (dst = src) off map
 
 instance (s : State) (op : OpW) : Decidable (GuardedOpW s op) := by
   cases op <;> unfold GuardedOpW <;> infer_instance
